@@ -414,6 +414,7 @@ pub fn run(ctx: &Ctx) -> i32 {
         exhaustive: Some(true),
         extra: vec![("exhaustive_scope".into(), J::s("every single device-call index of every history run (histories are sampled)"))],
         min_distinct: 100,
+        min_counters: vec![("faulted_calls", 1000), ("retries_compared", 100), ("bystander_sets_compared", 500)],
     };
     if let Some(rp) = &ctx.replay {
         let idx = rp.get("case").and_then(|c| c.get("history_index")).and_then(|x| x.as_u64()).unwrap_or(0);
